@@ -19,7 +19,9 @@ CONSTANTS NProc, SharedStack, Emit
 VARIABLES prog, L, s, sched, shared
 vars == <<prog, L, s, sched, shared>>
 
-Init == /\ prog \in 1..Len(Progs)
+\* with three processes only the program with the fewest effects (the schedule count is multinomial)
+ProgIdx == IF NProc >= 3 THEN {4} ELSE 1..Len(Progs)
+Init == /\ prog \in ProgIdx
         /\ L = Layout(Optimize(Progs[prog], MaskOf(prog), DefaultCfg))
         /\ s = [p \in 1..NProc |-> InitState(L, 0)]
         /\ sched = <<>>
